@@ -482,6 +482,13 @@ def run_shard(ctx):
     try:
         from ZConfig.loader import ConfigLoader
         shared = ConfigLoader(schema)      # reused for every load
+        # the command-line loader, kept for every load too: one without
+        # any option, one with an option that has nothing to do with the
+        # definitions
+        from ZConfig.cmdline import ExtendedConfigLoader
+        ext_plain = ExtendedConfigLoader(schema)
+        ext_opt = ExtendedConfigLoader(schema)
+        ext_opt.addOption("o=1")
         idx = 0
         for n in range(1, BOUND[ctx.tier] + 1):
             arrs = list(arrangements(n))
@@ -495,7 +502,8 @@ def run_shard(ctx):
                     run_case(ctx, schema, hook, files, "enum", dirpath)
                     if ai % 3 == 0:
                         run_case(ctx, schema, hook, files, "enum-loader",
-                                 dirpath, shared)
+                                 dirpath, [shared, ext_plain, ext_opt,
+                                           shared][ai // 3 % 4])
                     elif ai % 3 == 1:
                         run_case(ctx, schema, hook, files, "enum-override",
                                  dirpath, OVERRIDE)
@@ -512,7 +520,7 @@ def run_shard(ctx):
             files = random_case(rng)
             run_case(ctx, schema, hook, files, "random", dirpath)
             run_case(ctx, schema, hook, files, "random-loader", dirpath,
-                     shared)
+                     [shared, ext_plain, ext_opt][i % 3])
             run_case(ctx, schema, hook, files, "random-override", dirpath,
                      OVERRIDE)
             if len(files) > 1:
